@@ -5,7 +5,7 @@ Extraction Language OCaml.
 Extraction "C13_model.ml" wire_anchor
   binary32 binary64 x87ext decode encode fnorm valid
   ct_popcount ct_byteswap ct_add_sat code_add_sat ct_strlen ct_strcmp ct_strncmp ct_strchr ct_memchr
-  ct_signbit ct_copysign ct_isnan gcem_is_inf ct_floor ct_ceil ct_trunc ct_round ct_rint ct_lrint ct_fma
+  ct_signbit ct_copysign ct_isnan gcem_is_inf ct_floor ct_ceil ct_trunc ct_round ct_rint ct_lrint ct_fma ct_fmod ct_remainder
   rt_popcount rt_byteswap rt_add_sat cstr rt_strlen rt_strcmp rt_strncmp rt_strchr rt_memchr
-  rt_signbit rt_copysign rt_isnan rt_isinf rt_floor rt_ceil rt_trunc rt_round rt_rint rt_lrint rt_fma
-  to_chars10 sv_find work istr civil.
+  rt_signbit rt_copysign rt_isnan rt_isinf rt_floor rt_ceil rt_trunc rt_round rt_rint rt_lrint rt_fma rt_fmod rt_remainder
+  to_chars10 sv_find work istr civil ctype_all sv_ops civil_back algo2.
